@@ -147,6 +147,19 @@ Theorem c12_interval_no_deadlock : forall ops,
 Proof. exact interval_no_deadlock. Qed.
 Print Assumptions c12_interval_no_deadlock.
 
+(* cancellation through a stop token (interval generator): exactly the generator's own pending sleep is cancelled *)
+Theorem c12_interval_stop_cancels : forall ops, let s := istate ist0 ops in
+  i_stop s = false ->
+  exists s1 ob, istep false s [3] = IOk s1 ob /\ i_stop s1 = true /\ i_owner s1 = false /\
+    (i_gen s = GSleeping ->
+       (exists t, pending (i_sched s) = [t] /\ e_id t = tag) /\ pending (i_sched s1) = [] /\ i_gen s1 = GDone /\
+       ob = [0; 2; Z.of_nat (length (i_sched s1))]) /\
+    (i_gen s <> GSleeping ->
+       pending (i_sched s) = [] /\ pending (i_sched s1) = [] /\ i_gen s1 = i_gen s /\
+       ob = [0; 0; Z.of_nat (length (i_sched s1))]).
+Proof. exact interval_stop_cancels. Qed.
+Print Assumptions c12_interval_stop_cancels.
+
 (* the property oracle run on implementation traces accepts every trace of the model: it is not stricter than what is proved *)
 Theorem c12_oracle_sound : forall ops, timer_oracle ops (timer_run ops) = true.
 Proof. exact oracle_sound. Qed.
